@@ -75,15 +75,17 @@ def handle (stream : String) (args : List String) : String :=
     | ["init", ip, port, maxp, _] =>
       match ip.toNat?, port.toNat?, maxp.toNat? with
       | some ip, some port, some maxp =>
-        let rec go (s : St) (ops : List String) (acc : List String) : List String :=
+        let pub (s : St) : String := s!"{showAddr s.remote}/{b01 s.rtpLatched}"
+        -- ops before `|` happen inside `set_remote_description` and are applied silently
+        let rec go (s : St) (silent : Bool) (ops : List String) (acc : List String) : List String :=
           match ops with
           | [] => acc.reverse
+          | "|" :: rest => go s false rest (pub s :: acc)
           | t :: rest =>
             match parseOp t with
             | none => ("bad-op" :: acc).reverse
-            | some o => let s' := step s o; go s' rest (s!"{showAddr s'.remote}/{b01 s'.rtpLatched}" :: acc)
-        let s0 := init ⟨ip, port⟩ maxp false
-        " ".intercalate (go s0 ops [s!"{showAddr s0.remote}/{b01 s0.rtpLatched}"])
+            | some o => let s' := step s o; go s' silent rest (if silent then acc else pub s' :: acc)
+        " ".intercalate (go (init ⟨ip, port⟩ maxp false) true ops [])
       | _, _, _ => "bad-init"
     | _ => "bad-init"
   | "writers", sites => " ".intercalate (sites.map fun s =>
